@@ -4,7 +4,7 @@ WT="$1"; PATCH="$(realpath "$2")"; shift 2
 cd "$WT" || exit 2
 git checkout -q -- . && git apply "$PATCH" || { echo "patch does not apply"; exit 2; }
 for PID in "$@"; do
-  (cd /verif && FALCON_ROOT="$WT" timeout 3000 ./check "$PID" --tier quick > /tmp/tp_${PID}.log 2>&1; echo "EXIT $?" >> /tmp/tp_${PID}.log)
-  echo "$PID: $(tail -n 1 /tmp/tp_${PID}.log) $(grep -o 'violations=[0-9]* known=[0-9]* details=[0-9]*' /tmp/tp_${PID}.log | tail -n 1)"
+  (cd /verif && FALCON_ROOT="$WT" timeout 3000 ./check "$PID" --tier quick > /tmp/tp_${PID}_$$.log 2>&1; echo "EXIT $?" >> /tmp/tp_${PID}_$$.log)
+  echo "$PID: $(tail -n 1 /tmp/tp_${PID}_$$.log) $(grep -o 'violations=[0-9]* known=[0-9]* details=[0-9]*' /tmp/tp_${PID}_$$.log | tail -n 1)"
 done
 git checkout -q -- .
